@@ -739,6 +739,10 @@ class Messenger(Connection):
 
             try:  # Allow rejection from any of these via RejectError
                 if msgcls == messages.SessionInit:
+                    if self._in_sess:
+                        # Only one negotiation per session
+                        raise RejectError(messages.RejectMsg.Reason.UNEXPECTED)
+
                     if self._as_passive:
                         # After initial validation send reply
                         self._sessinit_this = self.send_sess_init().payload
@@ -752,6 +756,9 @@ class Messenger(Connection):
                         self._in_sess_func()
 
                 elif msgcls == messages.SessionTerm:
+                    if not self._in_sess:
+                        raise RejectError(messages.RejectMsg.Reason.UNEXPECTED)
+
                     # Send a reply (if not the initiator)
                     if not self._in_term:
                         self.send_sess_term(pkt.payload.reason, True)
